@@ -60,8 +60,25 @@ def check_full(col, case, sub='full'):
         queries = set(range(len(chunking.sizes_of(sched, len(img.data)))))
     else:
         queries = set(qplan) if qplan else None
+    imgdrive.tracing_for((fmt, repr(sorted(params.items(), key=repr)),
+                          repr(sched)))
     v, insp, _f = imgdrive.drive(fmt, img.data, sched, queries=queries)
     got = v[3]
+    # instance isolation: another inspector of the same class is driven over
+    # a different image (other declared size) and over junk; what the first
+    # one concluded must not move
+    other = imggen.build(fmt, {})
+    if other.vsize == img.vsize and fmt not in ('raw', 'gpt', 'luks'):
+        other = imggen.build(fmt, {'capacity' if fmt == 'vmdk' else
+                                   ('blocks' if fmt == 'iso' else 'size'): 7})
+    imgdrive.drive(fmt, other.data, ['fixed', 65536])
+    imgdrive.drive(fmt, b'\x07' * 700, ['fixed', 512])
+    again = _vsize(insp)
+    if again != got:
+        raise Violation(
+            sub, '%s: virtual_size of a finished inspector changed from %r '
+            'to %r after OTHER inspectors of the same class had processed '
+            'other streams' % (fmt, got, again), case)
     n = len(img.data)
     default = imggen.BUILDERS[fmt]().vsize
     aimed = chunking.near_boundary(sched, n, img.boundaries)
@@ -182,8 +199,8 @@ def check_prefix(col, case, sub='prefix'):
     img = imggen.build(fmt, params)
     cut = case['cut']
     data = img.data[:cut]
-    F = imgdrive.fi()
-    insp = F.ALL_FORMATS[fmt]()
+    imgdrive.tracing_for((fmt, cut, repr(case.get('schedule'))))
+    insp = imgdrive.new_inspector(fmt)
     err = None
     for chunk in chunking.chunks(data, case.get('schedule') or
                                  ['sizes', [len(data)]]):
